@@ -10,11 +10,15 @@ def run(tier):
     ck = C.Check("C02", tier)
     failed = ck.proofs()
     n_g, n_r = (45, 10) if tier == "quick" else (700, 30)
-    res = P.run_family(ck, n_g, n_r, p_err=0.0, want_hist=True)
+    res = P.run_family(ck, n_g, n_r, p_err=0.0, want_hist=True, extra=[P.D16_GRAMMAR])
     ties = pc.tie_violations(ck, res, want_kinds=("parse",))
     stats = {"grammars": len(res), "lr1": 0, "verdicts": 0, "accepted": 0, "rejected": 0, "max_len": 0, "fuel_or_panic": 0}
     nontrivial = set()
     validated = 0
+    def fk(r):
+        # known finding D16 is identified by the grammar: it has a string literal spelled `empty` or `error`
+        lit = any(k == 2 and nm in ("empty", "error") for _, b, _, _ in r["g"]["syn"] for k, nm in b)
+        return "D16-literal-empty-error" if lit else None
     for r in res:
         if not pc.is_lr1(r) or r["g"]["err"]:
             continue
@@ -23,7 +27,7 @@ def run(tier):
         else:
             ck.violation("the verified validators (Gocc.safe/safeEnds/complete; theorems C02_accept_sound, C02_sentence_accepted) reject the tables gocc generated: %s" % r["validate"],
                          {"bnf": r["text"], "validate": r["validate"], "tables": r["impl_lrtab"], "unchecked": "per-grammar obligation safe G T cert = true"},
-                         found_input=False)
+                         found_input=False, finding_key=fk(r))
         stats["lr1"] += 1
         heads = {p[0] for p in r["g"]["syn"]}
         recursive = any(any(k == 0 for k, nm in b) for _, b, _, _ in r["g"]["syn"])
@@ -43,7 +47,7 @@ def run(tier):
                 nontrivial.add((r["gi"], tuple(c["w"])))
             if (v == "ok") != sentence:
                 ck.violation("parser verdict `%s` but the token sequence %s is %sa sentence of the grammar" % (v, c["w"], "" if sentence else "not "),
-                             {"bnf": r["text"], "op": c["line"], "impl": c["impl"], "earley": c["earley"]})
+                             {"bnf": r["text"], "op": c["line"], "impl": c["impl"], "earley": c["earley"]}, finding_key=fk(r))
     # the same verdicts on a parser object that has been used before (failed or succeeded earlier)
     reused = 0
     for r in res:
